@@ -170,7 +170,30 @@ Shapes == {Rec(<<>>, <<>>),
            Rec(<<Attr(<<ca>>, One32)>>, <<Slot(One32, One32)>>),
            Rec(<<Attr(<<ca>>, Rec(<<>>, <<VItem(One32)>>))>>, <<>>)}
 
-OtherPool == {Extant, Bool(FALSE), Bool(TRUE)} \cup Texts \cup TextPositions \cup Blobs \cup OneLeafVariants \cup Shapes
+\* item STRUCTURE: for a value x the items  x  and  k: x  for a key k that is nothing, a bool, a number, a text, a record;
+\* slots whose value is nothing; the item `nothing`.  (Item::compare: a value item is greater than every slot; slots by key, then value.)
+SlotKeys == {Extant, Bool(TRUE), One32, Text(<<ca>>), Rec(<<>>, <<>>)}
+ItemsOf(x) == {VItem(x), VItem(Extant)} \cup {Slot(k, x) : k \in SlotKeys} \cup {Slot(k, Extant) : k \in SlotKeys}
+ItemLeaves == {One32, Text(<<ca>>)}
+\* records that differ only in the kind of ONE item: alone, before and after another item
+ItemRecords == UNION {{Rec(<<>>, <<i>>) : i \in ItemsOf(x)} : x \in ItemLeaves}
+               \cup {Rec(<<>>, <<i, VItem(One32)>>) : i \in ItemsOf(One32)} \cup {Rec(<<>>, <<VItem(One32), i>>) : i \in ItemsOf(One32)}
+\* the same differences one and two levels down, and in an attribute body
+NestedItemRecords == {Rec(<<>>, <<VItem(Rec(<<>>, <<i>>))>>) : i \in ItemsOf(One32)}
+                     \cup {Rec(<<>>, <<VItem(Rec(<<>>, <<VItem(Rec(<<>>, <<i>>))>>))>>) : i \in ItemsOf(One32)}
+                     \cup {Rec(<<Attr(<<ca>>, Rec(<<>>, <<i>>))>>, <<>>) : i \in ItemsOf(One32)}
+\* attributes: the same name with different bodies, prefixes, order (Attr::compare: by name, then by value)
+AttrBodies == {Extant, Rec(<<>>, <<>>), One32, Rec(<<>>, <<VItem(One32)>>), Rec(<<>>, <<VItem(Extant)>>), Text(<<ca>>)}
+AttrRecords == {Rec(<<Attr(<<ca>>, x)>>, <<>>) : x \in AttrBodies}
+               \cup {Rec(<<Attr(<<ca>>, Extant), Attr(<<cb>>, Extant)>>, <<>>), Rec(<<Attr(<<cb>>, Extant), Attr(<<ca>>, Extant)>>, <<>>),
+                     Rec(<<Attr(<<ca>>, Extant)>>, <<VItem(Extant)>>), Rec(<<Attr(<<ca>>, Extant)>>, <<Slot(Extant, Extant)>>),
+                     Rec(<<Attr(<<ca>>, Extant), Attr(<<ca>>, One32)>>, <<>>), Rec(<<Attr(<<ca>>, One32), Attr(<<ca>>, Extant)>>, <<>>)}
+StructurePool == ItemRecords \cup NestedItemRecords \cup AttrRecords
+
+OtherPool == {Extant, Bool(FALSE), Bool(TRUE)} \cup Texts \cup TextPositions \cup Blobs \cup OneLeafVariants \cup Shapes \cup StructurePool
+\* quick tier: the triple laws range over CorePool (all PAIRS of the whole pool are always evaluated)
+CorePool == NumericPool \cup {Extant, Bool(FALSE), Bool(TRUE)} \cup Texts \cup Blobs \cup OneLeafVariants \cup Shapes
+            \cup {Rec(<<>>, <<i>>) : i \in ItemsOf(One32)}
 
 Pool == NumericPool \cup OtherPool
 
